@@ -196,7 +196,7 @@ def check_delegation(rep, f):
     n_checked = 0
     sib = {}
     for b in f.live:
-        if not b.trait or not b.trait.startswith("num_traits") or b.self_ty != TF:
+        if not b.trait or not b.trait.startswith("num_traits") or b.self_ty != TF or b.kind == "Closure":
             continue
         tr = b.trait.split("::")[-1]
         name = b.name
